@@ -140,7 +140,8 @@ pub fn run(ctx: &mut Ctx, src: &Sources, f: &mut PosFn) {
     }
 
     type Fam = fn(&mut crate::rng::Rng) -> MPos;
-    let fams: [(&str, Fam); 9] = [
+    let fams: [(&str, Fam); 10] = [
+        ("fam_checkerboard", gen::fam_checkerboard),
         ("fam_odd_marks", gen::fam_odd_marks),
         ("fam_ep_stalemate", gen::fam_ep_stalemate),
         ("fam_enpassant", gen::fam_enpassant),
